@@ -1,6 +1,6 @@
 PROP = dict(
     engine="chain", harness="chain", driver="drv_chain",
-    props=["Hostd.Props.C06", "Hostd.Props.C06Acts", "Hostd.Gen.ChainSqlTie"],
+    props=["Hostd.Props.C06", "Hostd.Props.C06Acts", "Hostd.Props.C06End", "Hostd.Gen.ChainSqlTie"],
     pregen=[["go", "run", "./sqlwhere", "{repo}", "{lean}/Hostd/Gen/ChainSql.lean"]],
     shard_extra=[dict(level="store"), dict(level="mgr")],
     driver_args=["c06/"],
@@ -19,7 +19,7 @@ PROP = dict(
     trusted_base=COMMON_TB + [
         "the seven selection queries of ContractActions are transcribed as sel* predicates in Model/Chain.lean (SQLite comparison semantics incl. NULL handling assumed) and compared with the real query results at every tip",
     ],
-    level_text="Lean theorems: on every row satisfying the C01 row invariant the transcribed WHERE clauses select exactly the contracts the property names (unconfirmed and not rejected; confirmed, latest revision not on chain, window opens within the buffer; confirmed, unresolved, window contains the height; v2 analogues and expiration). Correspondence: Store.ContractActions evaluated at the tip after chain operations of seeded reorg histories, compared with the spec predicates on the implementation's own rows and with the model.",
-    level_note="trusted: Lean kernel, transcription of the SQL, harness; end-to-end 'ends successful' needs miner liveness and is not claimed at L1",
+    level_text="Lean theorems: on every row satisfying the C01 row invariant the transcribed WHERE clauses select exactly the contracts the property names (unconfirmed and not rejected; confirmed, latest revision not on chain, window opens within the buffer; confirmed, unresolved, window contains the height; v2 analogues and expiration); consequence clause (Props/C06End): after ANY well-formed reorg history whose best chain holds the formation and no resolution the contract is selected for a proof at every height of its window, a storage proof on the best chain makes it successful whatever happened on other branches, and it reports failed only if the best chain carries consensus' missed-resolution event. Correspondence: Store.ContractActions evaluated at the tip after chain operations of seeded reorg histories, compared with the spec predicates on the implementation's own rows and with the model.",
+    level_note="trusted: Lean kernel, transcription of the SQL, harness; the chain's part of 'ends successful' (a miner includes the offered proof before the window closes) is a hypothesis of C06_ends_successful, exercised end to end by the L2 engine's c06/ends_successful monitor",
     assumptions=["for v1 the revision query has no 'unresolved' clause; the spec treats resolved v1 contracts as don't-care (DESIGN §6.6)"],
 )
